@@ -211,6 +211,21 @@ func genC01(ctx *Ctx) {
 			ctx.Input(exprInput("a "+o1+" b "+o2+" c", penv, nil), true)
 		}
 	}
+	// every operator on two variables / one variable, with its tree: the real leg runs these over ALL pairs of values
+	for op := range binLevel {
+		t := &Tree{Kind: "bin", Op: op, Args: []*Tree{{Kind: "var", Text: "a"}, {Kind: "var", Text: "b"}}}
+		p := &printer{rnd: ctx.Rnd, parens: 0}
+		ctx.Count("two-variable-operator")
+		ctx.Input(exprInput(p.at(t, 0), penv, t), true)
+	}
+	for _, t := range []*Tree{
+		{Kind: "bin", Op: "ELEM", Args: []*Tree{{Kind: "var", Text: "a"}, {Kind: "var", Text: "b"}}},
+		{Kind: "un", Op: "NOT", Args: []*Tree{{Kind: "var", Text: "a"}}}, {Kind: "un", Op: "NEG", Args: []*Tree{{Kind: "var", Text: "a"}}},
+		{Kind: "un", Op: "ISNULL", Args: []*Tree{{Kind: "var", Text: "a"}}}, {Kind: "un", Op: "ISNOTNULL", Args: []*Tree{{Kind: "var", Text: "a"}}}} {
+		p := &printer{rnd: ctx.Rnd, parens: 0}
+		ctx.Count("two-variable-operator")
+		ctx.Input(exprInput(p.at(t, 0), penv, t), true)
+	}
 	depth := 3
 	if ctx.Thorough {
 		depth = 4
@@ -521,6 +536,34 @@ func runC01(in sx.SX) (sx.SX, string) {
 		h.Write([]byte(text))
 		rnd := rand.New(rand.NewSource(int64(h.Sum64())))
 		vals := realValues()
+		if (tree.Kind == "bin" || tree.Kind == "un") && tree.Args[0].Kind == "var" && (len(tree.Args) == 1 || tree.Args[1].Kind == "var") {
+			// one operator applied to variables: all pairs of values, both managers
+			for _, safe := range []bool{false, true} {
+				rc := calculator.NewExpressionCalculator()
+				if safe {
+					rc.SetVariantOperations(variants.NewTypeSafeVariantOperations())
+				}
+				if err := rc.SetExpression(text); err != nil {
+					fail = "rejected: " + err.Error()
+					break
+				}
+				for _, va := range vals {
+					for _, vb := range vals {
+						if fail != "" {
+							break
+						}
+						vars := variables.NewVariableCollection()
+						vars.Add(variables.NewVariable("a", va))
+						vars.Add(variables.NewVariable("b", vb))
+						got, gerr := rc.EvaluateUsingVariables(vars)
+						want, werr := realEval(tree, rc.VariantOperations(), vars, rc.DefaultFunctions())
+						if ok, why := sameResult(got, gerr, want, werr); !ok {
+							fail = fmt.Sprintf("with a=%s, b=%s (type-safe manager: %v): %s", show(va), show(vb), safe, why)
+						}
+					}
+				}
+			}
+		}
 		for round := 0; round < 3 && fail == ""; round++ {
 			rc := calculator.NewExpressionCalculator()
 			if round == 2 {
